@@ -404,6 +404,7 @@ class Unit:
         if key in self.in_progress: raise RsError("recursive function %s" % name)
         self.in_progress.add(key)
         snap = ({k: list(v) for k, v in self.used_fields.items()}, list(self.used_enums), list(self.used_denums))
+        n_order = len(self.order)
         try:
             src = self.fn_src.get(key)
             if src is not None:
@@ -419,6 +420,10 @@ class Unit:
             self.failed[key] = "%s%s: %s" % ((impl + "::") if impl else "", name, e)
             if len(self.in_progress) == 1:
                 self.used_fields, self.used_enums, self.used_denums = snap
+                # (round 9) callees translated on the way are dropped with the field usage they recorded (they are
+                # translated again when another function asks for them): their structures would otherwise lack fields
+                for k_ in self.order[n_order:]: self.fns.pop(k_, None)
+                del self.order[n_order:]
             raise RsError(self.failed[key])
         finally:
             self.in_progress.discard(key)
@@ -612,6 +617,10 @@ class FnTranslator:
         info = FnInfo()
         info.impl, info.name = self.impl, f["name"]
         info.lean_name = (self.impl + "." if self.impl else "") + lid(f["name"])
+        if self.impl in u.fi.structs and f["name"] in [fn_ for fn_, _ in u.fi.structs[self.impl]]:
+            # (round 9) a method named like a field of its structure (`VelocityApprover::control`): Lean's projection has
+            # that name already
+            info.lean_name = self.impl + "." + f["name"] + "_fn"
         info.params, info.ret, info.val_ty = params, self.ret, self.val_ty
         info.is_result = self.is_result
         info.mut_self = self.selfk == "mut"
@@ -934,6 +943,7 @@ class FnTranslator:
         if k == "path" and len(e[1]) == 1: return e[1][0]
         if k in ("field", "tfield", "index", "deref", "paren", "ref", "someof"): return self.place_root(e[1])
         if k == "mcall" and e[2] in ("as_mut", "borrow_mut", "as_mut_slice") and not e[4]: return self.place_root(e[1])
+        if k == "mcall" and self.lock_alias(e) is not None: return self.place_root(self.lock_alias(e))   # `*X.lock().unwrap() = v`
         raise RsError("assignment target outside the subset")
 
     def stmts(self, items, tail, env, fin):
@@ -1557,6 +1567,9 @@ class FnTranslator:
             return self.place_set(e[1], "(some %s)" % new, env, pre)
         if k == "mcall" and e[2] in ("as_mut", "borrow_mut", "as_mut_slice") and not e[4]:
             return self.place_set(e[1], new, env, pre)
+        if k == "mcall" and self.lock_alias(e) is not None:
+            # (round 9) `*X.lock().unwrap() = v`: the lock is the identity, the write goes to the place X
+            return self.place_set(self.lock_alias(e), new, env, pre)
         if k == "tfield":
             base, bt = self.expr(e[1], env, pre, None)
             if bt[0] != "tuple": raise RsError("tuple field assignment on a non-tuple")
@@ -1593,7 +1606,18 @@ class FnTranslator:
 
     def effect_call(self, e, env, pre):
         """expression statement that is a call: mutating Vec methods on a place, &mut self methods, `?` calls"""
+        user_method = False
         if e[0] == "mcall" and e[2] in MUT_METHODS:
+            # (round 9) a method of a structure of the unit that happens to be named like a collection method
+            # (`VelocityControl::clear`): the user's method, not the collection's
+            n0 = self.n
+            try:
+                _, pt0 = self.expr(e[1], env, [], None)
+                user_method = pt0[0] in ("struct", "enum") and (pt0[1], e[2]) in self.u.fi.fns
+            except RsError:
+                pass
+            self.n = n0
+        if e[0] == "mcall" and e[2] in MUT_METHODS and not user_method:
             recv = e[1]
             base, bt = self.place_get(recv, env, pre)
             if bt[0] == "vec":
@@ -1692,6 +1716,24 @@ class FnTranslator:
             raise RsError("? inside a for loop of a function that does not return Result is outside the subset")
         jumps = self.has_jump(body)
         pre = []
+        it0 = it
+        while it0[0] == "paren": it0 = it0[1]
+        if it0[0] == "mcall" and it0[2] == "iter_mut" and not it0[4]:
+            # (round 9) `for x in v.iter_mut() { *x = e; }` with `e` free of partial operations: `v := v.map (fun x => e)`
+            sts = list(body[1]) + ([("expr", body[2], 0)] if body[2] is not None else [])
+            a = sts[0][1] if len(sts) == 1 and sts[0][0] == "expr" else None
+            if pat[0] == "pvar" and a is not None and a[0] == "assign" and a[1] == "=" and a[2] == ("deref", ("path", [pat[1]])) \
+                    and not self.has_partial(a[3]) and not jumps and not self.has_try(body):
+                base, bt = self.place_get(it0[1], env, pre)
+                if bt[0] != "vec": raise RsError("iter_mut on a non-vector")
+                env2 = dict(env); env2[pat[1]] = bt[1]
+                pre2 = []
+                term, t = self.expr(a[3], env2, pre2, bt[1])
+                if pre2: raise RsError("for over iter_mut(): the assigned expression has effects")
+                self.check_ty(t, bt[1], "element assigned through iter_mut")
+                env = self.place_set(it0[1], "(%s.map (fun %s => %s))" % (base, lid(pat[1]), term), env, pre)
+                return self.wrap(pre, cont(env))
+            raise RsError("for over iter_mut() other than `*x = <expression without partial operations>;` is outside the subset")
         self.allow_unordered = self.keyed_update_loop(pat, body)
         try:
             lst, elt = self.iter_expr(it, env, pre)
